@@ -13,14 +13,14 @@ TRUSTED = [
 ]
 ASSUMPTIONS = [
     "Verus unit: the f64 instance is external_body; its laws are the statements discharged by Kani obligation C14.K.f64.laws for all f64 triples (cross-engine discharge)",
-    "Verus unit: trait DoubleOps is mirrored by hand with ghost members; `hash<H: Hasher>` is dropped (no Verus spec for Hasher) — the hash law is decided by Kani only (complete for f64/Option, bounded for Vec)",
+    "Verus unit: trait DoubleOps is mirrored by hand with ghost members; std::hash::Hasher / Hash are mirrored by a ghost model (the words fed so far; `<usize as Hash>::hash` feeds one word determined by the value) — ASSUMED to describe std",
+    "Verus unit: Option<T>::hash is external_body (mem::discriminant has no Verus specification): its spec (tag word, then payload words) is assumed and discharged for f64 payloads by the complete Kani obligations C14.K.option_f64.laws / option_option_f64.laws; the law for optionals is proved from that spec",
     "usize::min, slice indexing, Range<usize> iteration, usize::cmp are specified by vstd",
     "cfg(kani) harness modules appended to scratch copies; executable text unchanged",
 ]
 NOT_DECIDED = [
     "orders other than the four lawful combinations {None first|last} x {prefix first|last} (e.g. length-first ordering of lists) are not recognised by the Verus obligations and would be reported as a failed obligation",
     "DoubleOps for BTreeMap<K,V> (iterator chains with closures: outside Verus's subset; CBMC gives no answer for two entries in 7 min, nor for at most one entry in 10 min)",
-    "Vec hash law beyond length 2",
     "which fields the generator decorates (C02/C03 territory)",
 ]
 
@@ -33,11 +33,15 @@ _NONE_LAST = ("        (Some(_), None) => Ordering::Greater,   // empty optional
               "        (Some(_), None) => Ordering::Less,   // variant: empty optional sorts after a present one\n        (None, Some(_)) => Ordering::Greater,")
 _PREFIX_LAST = ("    else if a.len() == 0 { Ordering::Less }\n    else if b.len() == 0 { Ordering::Greater }",
                 "    else if a.len() == 0 { Ordering::Greater }\n    else if b.len() == 0 { Ordering::Less }")
-_VARIANTS = [
-    dict(name="none-last", desc="Option: None sorts after Some", subst=[_NONE_LAST]),
-    dict(name="prefix-last", desc="Vec: a proper prefix sorts after the longer list", subst=[_PREFIX_LAST]),
-    dict(name="none-last+prefix-last", desc="both", subst=[_NONE_LAST, _PREFIX_LAST]),
-]
+# L6 only asks that equal values feed identical words; where the length word goes (or whether there is one) is free
+_HASH_SPEC = "seq![self@.len() as u64] + flat(self@) }"
+_HASH_INV = "hasher.fed() == old(hasher).fed() + seq![self@.len() as u64] + flat(self@.take(it.index@ as int)),"
+_LEN_LAST = [(_HASH_SPEC, "flat(self@) + seq![self@.len() as u64] }"), (_HASH_INV, "hasher.fed() == old(hasher).fed() + flat(self@.take(it.index@ as int)),")]
+_NO_LEN = [(_HASH_SPEC, "flat(self@) }"), (_HASH_INV, "hasher.fed() == old(hasher).fed() + flat(self@.take(it.index@ as int)),")]
+_ORDERS = [("", []), ("none-last", [_NONE_LAST]), ("prefix-last", [_PREFIX_LAST]), ("none-last+prefix-last", [_NONE_LAST, _PREFIX_LAST])]
+_HASHES = [("", []), ("length-last", _LEN_LAST), ("no-length", _NO_LEN)]
+_VARIANTS = [dict(name="+".join(x for x in (on, hn) if x), desc="alternative lawful order / hash layout", subst=osub + hsub)
+             for (on, osub) in _ORDERS for (hn, hsub) in _HASHES if on or hn]
 
 VERUS_UNITS = [dict(
     name="doubleops", template="doubleops.verus.rs", variants=_VARIANTS,
@@ -46,6 +50,11 @@ VERUS_UNITS = [dict(
         VO("C14.V.option.eq.post", "Option::eq", "DoubleOps for Option<T>::eq", "Option<T>::eq == spec", ["C14.K.option_f64.laws"]),
         VO("C14.V.vec.cmp.post", "Vec::cmp", "DoubleOps for Vec<T>::cmp", "Vec<T>::cmp == lexicographic seq_cmp for every length (loop invariant)", ["C14.K.vec_f64.laws_len2"]),
         VO("C14.V.vec.eq.post", "Vec::eq", "DoubleOps for Vec<T>::eq", "Vec<T>::eq == same length and element-wise eq for every length", ["C14.K.vec_f64.laws_len2"]),
+        dict(VO("C14.V.vec.hash.post", "Vec::hash", "DoubleOps for Vec<T>::hash", "Vec<T>::hash feeds the length word and then every element's words, in order, for every length (loop invariant over a ghost hasher); this pins one lawful layout as a proof device for L6", ["C14.K.vec_f64.hash_len2"]), soft=True),
+        VO("C14.V.vec.law_hash", "Vec::law_hash", None, "lifting L6: equal lists feed identical words (any length)"),
+        VO("C14.V.option.law_hash", "Option::law_hash", None, "lifting L6: equal optionals feed identical words"),
+        VO("C14.V.lemma_flat_snoc", "lemma_flat_snoc", None, "lemma: words of a prefix extended by one element"),
+        VO("C14.V.lemma_flat_eq", "lemma_flat_eq", None, "lemma: element-wise equal sequences feed identical words (induction)"),
         VO("C14.V.option.law_refl", "Option::law_refl", None, "lifting: T lawful => Option<T> reflexive"),
         VO("C14.V.option.law_eq_iff_cmp_equal", "Option::law_eq_iff_cmp_equal", None, "lifting: eq <=> cmp==Equal for Option<T>"),
         VO("C14.V.option.law_antisym", "Option::law_antisym", None, "lifting: antisymmetry for Option<T>"),
@@ -117,6 +126,8 @@ MUTANTS = [
 ]
 
 BENIGN = [
+    # another lawful hash layout: the length word after the elements
+    dict(name="vec_hash_length_last", file=P, **{"from": "        self.len().hash(hasher);\n        for v in self {\n            v.hash(hasher);\n        }", "to": "        for v in self {\n            v.hash(hasher);\n        }\n        self.len().hash(hasher);"}),
     # a different but equally lawful order (None last): the laws of the property still hold; must not be reported as a violation
     dict(name="option_none_sorts_last_consistently", file=P, **{"from": "(Some(_), None) => Ordering::Greater,\n            (None, Some(_)) => Ordering::Less,", "to": "(Some(_), None) => Ordering::Less,\n            (None, Some(_)) => Ordering::Greater,"}),
     dict(name="vec_eq_index_renamed", file=P, **{"from": "        for i in 0..self.len() {\n            if !self[i].eq(&other[i]) {", "to": "        for idx in 0..self.len() {\n            if !self[idx].eq(&other[idx]) {"}),
